@@ -1,6 +1,7 @@
 package main
 
 import (
+	"bufio"
 	"bytes"
 	"context"
 	"encoding/json"
@@ -72,20 +73,157 @@ func replayable(o *Oblig) bool {
 	return false
 }
 
-// modelSession queries values of terms in a model of the script, pinning everything it
-// has learnt so that successive queries see one consistent model.
+// modelSession keeps one interactive solver process alive: the query is solved once and
+// values of further terms are read from that model; "prefer small" constraints are tried
+// incrementally with push/pop.
 type modelSession struct {
-	ctx    *Ctx
+	ctx      *Ctx
 	declared map[string]bool
-	base   string // script up to and excluding (check-sat)
-	pins   []string
-	known  map[string]string
-	solver string
+	known    map[string]string
+	cmd      *exec.Cmd
+	in       *bufio.Writer
+	out      *bufio.Reader
+	dead     error
+	deadline time.Time
 }
 
 var valRe = regexp.MustCompile(`#x[0-9a-fA-F]+|#b[01]+|\btrue\b|\bfalse\b`)
 
+func newModelSession(ctx *Ctx, script string) (*modelSession, error) {
+	base := strings.Replace(script, "(check-sat)\n", "", 1)
+	m := &modelSession{ctx: ctx, known: map[string]string{}, declared: map[string]bool{}, deadline: time.Now().Add(90 * time.Second)}
+	for _, l := range strings.Split(base, "\n") {
+		for _, pre := range []string{"(declare-const ", "(define-fun ", "(declare-fun "} {
+			if strings.HasPrefix(l, pre) {
+				rest := l[len(pre):]
+				if i := strings.IndexAny(rest, " ("); i > 0 {
+					m.declared[rest[:i]] = true
+				}
+			}
+		}
+	}
+	m.cmd = exec.Command("z3-new", "-in", "-t:20000")
+	stdin, err := m.cmd.StdinPipe()
+	if err != nil {
+		return nil, err
+	}
+	stdout, err := m.cmd.StdoutPipe()
+	if err != nil {
+		return nil, err
+	}
+	if err := m.cmd.Start(); err != nil {
+		return nil, err
+	}
+	m.in = bufio.NewWriter(stdin)
+	m.out = bufio.NewReader(stdout)
+	go func() {
+		time.Sleep(100 * time.Second)
+		m.cmd.Process.Kill()
+	}()
+	if pre := m.roundTrip(base); strings.Contains(pre, "error") {
+		m.close()
+		return nil, fmt.Errorf("solver rejected the script: %s", firstLines(pre, 3))
+	}
+	if r := m.check(); r != "sat" {
+		m.close()
+		return nil, fmt.Errorf("model query answered %q", r)
+	}
+	return m, nil
+}
+
+func (m *modelSession) close() {
+	if m.cmd != nil && m.cmd.Process != nil {
+		m.cmd.Process.Kill()
+		m.cmd.Wait()
+	}
+}
+
+func (m *modelSession) send(s string) {
+	if f := os.Getenv("GOVC_DEBUG_MODEL"); f != "" {
+		if fh, err := os.OpenFile(f, os.O_APPEND|os.O_CREATE|os.O_WRONLY, 0o644); err == nil {
+			fh.WriteString(s + "\n")
+			fh.Close()
+		}
+	}
+	m.in.WriteString(s)
+	m.in.WriteString("\n")
+	m.in.Flush()
+}
+
+// roundTrip sends a command and returns everything the solver prints up to a sync marker.
+func (m *modelSession) roundTrip(cmd string) string {
+	m.send(cmd)
+	m.send("(echo \"ZZSYNC\")")
+	var sb strings.Builder
+	for {
+		line, err := m.out.ReadString('\n')
+		if err != nil {
+			m.dead = err
+			return sb.String()
+		}
+		t := strings.TrimSpace(line)
+		if t == "ZZSYNC" || t == "\"ZZSYNC\"" {
+			return strings.TrimSpace(sb.String())
+		}
+		sb.WriteString(t)
+		sb.WriteByte(' ')
+	}
+}
+
+func (m *modelSession) readSexpr() string { return "" }
+
+func (m *modelSession) check() string {
+	r := m.roundTrip("(check-sat)")
+	f := strings.Fields(r)
+	if len(f) == 0 {
+		return "none"
+	}
+	return f[len(f)-1]
+}
+
+func (m *modelSession) declare(terms []string) {
+	needIdx := map[int]bool{}
+	stack := append([]string{}, terms...)
+	for len(stack) > 0 {
+		s := stack[len(stack)-1]
+		stack = stack[:len(stack)-1]
+		for _, t := range tokens(s) {
+			if i, ok := m.ctx.idx[t]; ok && !needIdx[i] && !m.declared[t] {
+				needIdx[i] = true
+				stack = append(stack, m.ctx.defs[i].line)
+			}
+		}
+	}
+	var idxs []int
+	for i := range needIdx {
+		idxs = append(idxs, i)
+	}
+	sort.Ints(idxs)
+	if len(idxs) == 0 {
+		return
+	}
+	for _, i := range idxs {
+		m.send(m.ctx.defs[i].line)
+		m.declared[m.ctx.defs[i].name] = true
+	}
+	// new declarations invalidate the model: re-solve with everything learnt so far pinned
+	m.repin()
+}
+
+func (m *modelSession) repin() bool {
+	for t, v := range m.known {
+		m.send(fmt.Sprintf("(assert (= %s %s))", t, v))
+	}
+	return m.check() == "sat"
+}
+
 func (m *modelSession) get(terms []string) error {
+	if m.dead != nil {
+		return m.dead
+	}
+	if time.Now().After(m.deadline) {
+		return fmt.Errorf("model extraction budget exhausted")
+	}
 	var need []string
 	for _, t := range terms {
 		if _, ok := m.known[t]; !ok {
@@ -95,84 +233,45 @@ func (m *modelSession) get(terms []string) error {
 	if len(need) == 0 {
 		return nil
 	}
-	var b strings.Builder
-	b.WriteString(m.base)
-	// declare symbols created after the query was generated (lazily created heap components)
-	if m.declared == nil {
-		m.declared = map[string]bool{}
-		for _, l := range strings.Split(m.base, "\n") {
-			for _, pre := range []string{"(declare-const ", "(define-fun ", "(declare-fun "} {
-				if strings.HasPrefix(l, pre) {
-					rest := l[len(pre):]
-					if i := strings.IndexAny(rest, " ("); i > 0 {
-						m.declared[rest[:i]] = true
-					}
-				}
-			}
-		}
-	}
-	{
-		needIdx := map[int]bool{}
-		var stack []string
-		stack = append(stack, need...)
-		for len(stack) > 0 {
-			s := stack[len(stack)-1]
-			stack = stack[:len(stack)-1]
-			for _, t := range tokens(s) {
-				if i, ok := m.ctx.idx[t]; ok && !needIdx[i] && !m.declared[t] {
-					needIdx[i] = true
-					stack = append(stack, m.ctx.defs[i].line)
-				}
-			}
-		}
-		var idxs []int
-		for i := range needIdx {
-			idxs = append(idxs, i)
-		}
-		sort.Ints(idxs)
-		for _, i := range idxs {
-			m.base += m.ctx.defs[i].line + "\n"
-			m.declared[m.ctx.defs[i].name] = true
-			b.WriteString(m.ctx.defs[i].line + "\n")
-		}
-	}
-	for _, p := range m.pins {
-		b.WriteString(p)
-		b.WriteByte('\n')
-	}
-	b.WriteString("(check-sat)\n")
+	m.declare(need)
 	for _, t := range need {
-		fmt.Fprintf(&b, "(get-value (%s))\n", t)
-	}
-	file := filepath.Join(workDir, fmt.Sprintf("model-%d.smt2", time.Now().UnixNano()))
-	os.WriteFile(file, []byte(b.String()), 0o644)
-	ctx, cancel := context.WithTimeout(context.Background(), 40*time.Second)
-	defer cancel()
-	cmd := exec.CommandContext(ctx, "z3-new", "-T:30", file)
-	var out bytes.Buffer
-	cmd.Stdout = &out
-	cmd.Run()
-	lines := strings.Split(strings.TrimSpace(out.String()), "\n")
-	if len(lines) == 0 || strings.TrimSpace(lines[0]) != "sat" {
-		return fmt.Errorf("model query answered %q", firstLines(out.String(), 2))
-	}
-	// each get-value answer is one s-expression; z3 prints one per line for scalar values
-	rest := strings.Join(lines[1:], " ")
-	answers := splitSexprs(rest)
-	if len(answers) < len(need) {
-		return fmt.Errorf("model query returned %d answers for %d terms", len(answers), len(need))
-	}
-	for i, t := range need {
-		a := answers[i]
+		a := m.roundTrip(fmt.Sprintf("(get-value (%s))", t))
+		if m.dead != nil {
+			return fmt.Errorf("solver died: %v", m.dead)
+		}
 		vals := valRe.FindAllString(a, -1)
-		if len(vals) == 0 {
+		if len(vals) == 0 || strings.Contains(a, "error") {
 			return fmt.Errorf("cannot read value of %s from %q", t, a)
 		}
-		v := vals[len(vals)-1]
-		m.known[t] = v
-		m.pins = append(m.pins, fmt.Sprintf("(assert (= %s %s))", t, v))
+		m.known[t] = vals[len(vals)-1]
 	}
 	return nil
+}
+
+// preferSmall pins term (a signed 64-bit value) below the smallest bound that keeps the query satisfiable.
+func (m *modelSession) preferSmall(term string) {
+	if _, ok := m.known[term]; ok || m.dead != nil {
+		return
+	}
+	m.declare([]string{term})
+	for _, bound := range []uint64{48, 400, 70000} {
+		m.send("(push 1)")
+		m.send(fmt.Sprintf("(assert (and (bvsle #x0000000000000000 %s) (bvsle %s %s)))", term, term, bvLit(bound, 64)))
+		ok := true
+		for t, v := range m.known {
+			m.send(fmt.Sprintf("(assert (= %s %s))", t, v))
+		}
+		if m.check() != "sat" {
+			ok = false
+		}
+		if ok {
+			m.get([]string{term})
+			return
+		}
+		m.send("(pop 1)")
+	}
+	// restore a model
+	m.repin()
 }
 
 func splitSexprs(s string) []string {
@@ -197,22 +296,6 @@ func splitSexprs(s string) []string {
 	return out
 }
 
-// preferSmall pins term (a signed 64-bit value) below the smallest bound that keeps the query satisfiable.
-func (m *modelSession) preferSmall(term string) {
-	if _, ok := m.known[term]; ok {
-		return
-	}
-	for _, bound := range []uint64{48, 400, 70000} {
-		pin := fmt.Sprintf("(assert (and (bvsle #x0000000000000000 %s) (bvsle %s %s)))", term, term, bvLit(bound, 64))
-		saved := m.pins
-		m.pins = append(m.pins, pin)
-		if err := m.get([]string{term}); err == nil {
-			return
-		}
-		m.pins = saved
-	}
-}
-
 func (m *modelSession) u64(term string) (uint64, error) {
 	if err := m.get([]string{term}); err != nil {
 		return 0, err
@@ -232,6 +315,58 @@ func parseSMTValue(v string) (uint64, error) {
 		return strconv.ParseUint(v[2:], 2, 64)
 	}
 	return 0, fmt.Errorf("bad value %q", v)
+}
+
+func (e *Engine) precreate(info *replayInfo) {
+	r := info.run
+	seen := map[string]bool{}
+	var walk func(t types.Type, depth int)
+	walk = func(t types.Type, depth int) {
+		if depth > 5 {
+			return
+		}
+		switch u := t.Underlying().(type) {
+		case *types.Pointer:
+			walk(u.Elem(), depth+1)
+		case *types.Slice:
+			if !isStruct(u.Elem()) {
+				if ls, err := leavesOf(u.Elem()); err == nil {
+					for _, l := range ls {
+						for _, st := range []*State{info.entry, info.exit} {
+							r.heap.get(st, elemComp(u.Elem())+l.suffix, sArr(sRef, sArr(sBV(64), l.sort)))
+						}
+					}
+				}
+			}
+			walk(u.Elem(), depth+1)
+		case *types.Struct:
+			k := typeKey(t)
+			if seen[k] {
+				return
+			}
+			seen[k] = true
+			for i := 0; i < u.NumFields(); i++ {
+				f := u.Field(i)
+				if !isStruct(f.Type()) {
+					if ls, err := leavesOf(f.Type()); err == nil {
+						for _, l := range ls {
+							for _, st := range []*State{info.entry, info.exit} {
+								r.heap.get(st, fieldComp(t, f)+l.suffix, sArr(sRef, l.sort))
+							}
+						}
+					}
+				}
+				walk(f.Type(), depth+1)
+			}
+		}
+	}
+	for _, p := range info.fn.Params {
+		walk(p.Type(), 0)
+	}
+	res := info.fn.Signature.Results()
+	for i := 0; i < res.Len(); i++ {
+		walk(res.At(i).Type(), 0)
+	}
 }
 
 // ---------------------------------------------------------------------------
@@ -643,16 +778,19 @@ func (e *Engine) replayModel(o *Oblig, content map[string]interface{}) (bool, er
 	}
 	// candidate model: the failing query itself when sat, otherwise the query without the
 	// quantified spec axioms (a candidate only; the real code is the arbiter)
-	script := o.Script
 	if o.Res.Status != "sat" {
-		script = o.Cand
 		content["model_source"] = "candidate model of the query with recursive spec axioms dropped"
 	}
-	if script == "" {
-		return false, fmt.Errorf("no query to take a model from")
+	// make sure every heap component the inputs/outputs can touch has its symbols, then
+	// build a script with all definitions so that no declaration is needed after solving
+	e.precreate(info)
+	mode := 3
+	script := info.run.ctx.queryMode([]string{o.Guard, not(o.Goal)}, nil, mode)
+	m, err := newModelSession(info.run.ctx, script)
+	if err != nil {
+		return false, err
 	}
-	base := strings.Replace(script, "(check-sat)\n", "", 1)
-	m := &modelSession{ctx: info.run.ctx, base: base, known: map[string]string{}}
+	defer m.close()
 	b := &builder{e: e, r: info.run, m: m, st: info.entry, refs: map[string]string{}}
 	// inputs
 	var args []string
